@@ -11,6 +11,8 @@ Line-protocol driver for the C06 model (fan-out queue with consumer groups).
       `not-parked | …`.
   reopenlazy     (Close ; NewFanOutQueue, no group looked up: answers `ok names=<ids> | q=… | `; until a
       group is looked up again with `create <g>` its positions are left out of the replies)
+  reopenfault <g>  (Close ; NewFanOutQueue with a one-shot failure opening group g's directory — the
+      start-up fails — ; retry: answers `retried | …`)
   createsync <g> | ackconsume <g> <n>      (lock-granularity races, Model/FanOutConc.lean: a create whose
       meta write is delayed while Sync+GC are called = create; sync; gc — an Ack whose meta write is
       delayed while Consume is called = ack; consume)
@@ -24,6 +26,7 @@ fact `Generated.C06.newGroupShape`; with an unknown shape every line answers `ba
 -/
 import LinVerif.Util.Proto
 import LinVerif.Model.FanOutPark
+import LinVerif.Model.FanOutFault
 import LinVerif.Generated.C06
 
 namespace LinVerif.Driver.C06
@@ -186,6 +189,14 @@ def dstepLine (v : Variant) (d : DState) (ws : List String) : DState × String :
   | ["reopen"] =>
     let r := pstepLine v d.ps ws
     ({ ps := r.1, hidden := [] }, r.2)
+  | ["reopenfault", g] =>
+    -- Close ; NewFanOutQueue failing on group g's directory ; retry
+    match g.toNat? with
+    | some gi =>
+      let s' := d.ps.s.reopenFault v gi
+      let res := if (LinVerif.Map.lookup d.ps.s.metas gi).isSome then "retried" else "ok-no-fault"
+      ({ ps := { d.ps with s := s' }, hidden := [] }, res ++ " | " ++ showState s')
+    | none => (d, "bad-op")
   | ["reset"] => ({ ps := PState.init, hidden := [] }, "ok")
   | ["create", g] =>
     match g.toNat? with
